@@ -85,6 +85,10 @@ func c02(c *Ctx) {
 		r.Undecide("R02.L", "population", "", err.Error())
 		return
 	}
+	// a vector of many elements is as much the schema's serialisation as a vector of two: the nesting level the
+	// decoder counts is given back after every value, so siblings are read at their parent's level plus one
+	r.Rule("R02.D", "the nesting level counted by the decoder is given back on every exit (= R01.V depth:balanced, filed under C02): the k-th element of a vector is not refused as k levels deep", 1)
+	c.depthBalanced("R02.D")
 	r.Rule("R02.R", "the encoder walks nested values recursively: no list kept in a field of the Encoder and filled by one activation is read after a call that may re-enter it (the nested object would overwrite its parent's list)", 1)
 	c.noScratchAcrossReentry("R02.R", "Encoder")
 	r.Rule("R02.G", "a present conditional group contains every one of its fields: the decoder reads a tagged field iff its bit is set, the encoder sets the bit and emits the field under that bit and nothing else (a flags.N?Bool is a bit plus a Bool word, only flags.N?true is the bit alone)", 3)
